@@ -46,6 +46,8 @@ package annotations
 //@ ensures count: len(result) == countName(holder, attribute, len(holder.attributes))
 //@ ensures elems: forall(k, 0, len(holder.attributes), implies(holder.attributes[k].Name == attribute, 0 <= countName(holder, attribute, k) && countName(holder, attribute, k) < len(result) && *result[countName(holder, attribute, k)] == holder.attributes[k]))
 //@ ensures nonnil: forall(i, 0, len(result), result[i] != nil && fresh(result[i]))
+//@ ensures onto: forall(i, 0, len(result), exists(k, 0, len(holder.attributes), holder.attributes[k].Name == attribute && *result[i] == holder.attributes[k]))
+//@ loop 0 invariant forall(i, 0, len(attributes), exists(k, 0, _n, holder.attributes[k].Name == attribute && *attributes[i] == holder.attributes[k]))
 //@ loop 0 invariant 0 <= _n && _n <= len(holder.attributes)
 //@ loop 0 invariant len(attributes) == countName(holder, attribute, _n) && fresh(attributes)
 //@ loop 0 invariant forall(i, 0, len(attributes), attributes[i] != nil && fresh(attributes[i]))
